@@ -300,6 +300,9 @@ theorem exists_between (f : Nat → Nat) (t : Nat) : ∀ d s e, e = s + d → f 
 
 /-! ### `get_segment_index` inside the first loop of the media -/
 
+/-- distance between two tick values -/
+def dist (a b : Nat) : Nat := (a - b) + (b - a)
+
 /-- the search stays inside the first loop exactly when the offset is inside the reference
 duration and not later than the middle of the last segment -/
 theorem index_lt_iff (durs : List Nat) (R tc : Nat) (hR : 0 < R) (hn : 0 < durs.length) :
